@@ -409,7 +409,9 @@ Proof.
   unfold accepts in E. rewrite He in E. rewrite !andb_false_r in E. cbn in E. exact E.
 Qed.
 
-(* ------------------------------------------------------------------ witnesses of the known classes *)
+(* ------------------------------------------------------------------ witnesses of the known classes
+   (selfsigned_refuted and pss_defaults_refuted are about the code before fixes e3a439b95 / 85312f708: they are stated under the
+   old values of the regenerated facts and are vacuous on the repaired tree; ku_certsign_refuted is still live) *)
 
 Definition ok_eku : eku :=
   {| eku_any := false; eku_server_auth := false; eku_client_auth := false; eku_code_signing := false;
@@ -484,4 +486,162 @@ Lemma ku_certsign_refuted :
   rule_key_usage certsign_only_ee /\ c_is_ca certsign_only_ee = false /\ known_selfsigned certsign_only_ee = false
   /\ quiet_input certsign_only_ee = false
   /\ check_end_entity_certificate_profile certsign_only_ee DEFAULT_EKUS None T2026 = POk.
+Proof. vm_compute. repeat split; reflexivity. Qed.
+
+(* ================================================================== after the repairs (fix commits e3a439b95, 85312f708)
+   The two regenerated facts now read SELFSIGNED_ONLY_CA = false (the self-signed test no longer asks for the CA flag) and
+   QUIET_EXITS_LOGGED = true (a wrapper logs signingCredential.invalid for every Err that logged nothing).  The lemmas below
+   are stated over those facts, so the theorems that follow need neither [quiet_input] nor [known_selfsigned]. *)
+
+Lemma selfsigned_fixed : SELFSIGNED_ONLY_CA = false.
+Proof. reflexivity. Qed.
+
+Lemma quiet_exits_logged : QUIET_EXITS_LOGGED = true.
+Proof. reflexivity. Qed.
+
+Lemma known_selfsigned_empty : forall c, known_selfsigned c = false.
+Proof. intros c. unfold known_selfsigned. now rewrite selfsigned_fixed. Qed.
+
+Lemma quiet_branch_logged : forall b, exists k, branch_code b = Some k.
+Proof.
+  intros b. destruct b; cbv beta iota delta [branch_code]; try rewrite quiet_exits_logged; eexists; reflexivity.
+Qed.
+
+Lemma quiet_not_accepted : forall c ekus t, quiet_input c = true -> accepts c ekus t = false.
+Proof.
+  intros c ekus t Hq. unfold accepts, quiet_input, sig_ok, key_ok, eku_accepted in *.
+  apply orb_true_iff in Hq. destruct Hq as [Hq|Hq]; [apply orb_true_iff in Hq; destruct Hq as [Hq|Hq]|].
+  - apply andb_true_iff in Hq. destruct Hq as [H1 H2]. rewrite H1.
+    destruct (c_pss c); try discriminate. now rewrite !andb_false_r.
+  - destruct (c_spki c) as [[cv| |]|[bits|]|]; try discriminate; now rewrite !andb_false_r.
+  - destruct (c_eku c); try discriminate. now rewrite !andb_false_r.
+Qed.
+
+Lemma accepted_is_ok : forall c ekus tst now,
+  check_end_entity_certificate_profile c ekus tst now = POk \/
+  exists b, check_end_entity_certificate_profile c ekus tst now = PFail b.
+Proof. intros. destruct (check_end_entity_certificate_profile c ekus tst now); eauto. Qed.
+
+(* on a quiet input the check fails (it never returns POk there): every quiet exit is a PFail *)
+Lemma quiet_fails : forall c ekus tst now,
+  quiet_input c = true -> exists b, check_end_entity_certificate_profile c ekus tst now = PFail b.
+Proof.
+  intros c ekus tst now Hq.
+  unfold quiet_input in Hq. unfold check_end_entity_certificate_profile, check_certificate_profile.
+  destruct (negb (c_parse_ok c)); [eauto|].
+  destruct (negb (N.eqb (c_version c) 2)); [eauto|].
+  destruct (negb (valid_at c match tst with Some t => t | None => now end)); [eauto|].
+  destruct (negb (oid_mem (c_sig_alg c) ALLOWED_SIG_ALGS)); [eauto|].
+  destruct (oid_eqb (c_sig_alg c) RSASSA_PSS_OID); cbn [andb orb] in Hq.
+  - destruct (c_pss c) as [| |h m]; [eauto|eauto|].
+    destruct (negb (oid_eqb h m)); [eauto|]. destruct (negb (oid_mem h ALLOWED_PSS_HASHES)); [eauto|].
+    destruct (c_spki c) as [[cv| |]|[bits|]|]; cbn [orb] in Hq; eauto.
+    + destruct (negb (oid_mem cv ALLOWED_CURVES)); [eauto|].
+      destruct (self_signed_rule c); [eauto|]. destruct (c_issuer_uid c || c_subject_uid c); [eauto|].
+      destruct (c_eku c); try discriminate. eauto.
+    + destruct (N.ltb bits MIN_RSA_BITS); [eauto|].
+      destruct (self_signed_rule c); [eauto|]. destruct (c_issuer_uid c || c_subject_uid c); [eauto|].
+      destruct (c_eku c); try discriminate. eauto.
+    + destruct (self_signed_rule c); [eauto|]. destruct (c_issuer_uid c || c_subject_uid c); [eauto|].
+      destruct (c_eku c); try discriminate. eauto.
+  - destruct (c_spki c) as [[cv| |]|[bits|]|]; cbn [orb] in Hq; eauto.
+    + destruct (negb (oid_mem cv ALLOWED_CURVES)); [eauto|].
+      destruct (self_signed_rule c); [eauto|]. destruct (c_issuer_uid c || c_subject_uid c); [eauto|].
+      destruct (c_eku c); try discriminate. eauto.
+    + destruct (N.ltb bits MIN_RSA_BITS); [eauto|].
+      destruct (self_signed_rule c); [eauto|]. destruct (c_issuer_uid c || c_subject_uid c); [eauto|].
+      destruct (c_eku c); try discriminate. eauto.
+    + destruct (self_signed_rule c); [eauto|]. destruct (c_issuer_uid c || c_subject_uid c); [eauto|].
+      destruct (c_eku c); try discriminate. eauto.
+Qed.
+
+(* the outcome, for every certificate: accepted exactly when [accepts]; every rejection carries a validation code *)
+Theorem profile_exact_all : forall c ekus tst now,
+  if accepts c ekus (eff_time tst now)
+  then check_end_entity_certificate_profile c ekus tst now = POk
+  else exists b k, check_end_entity_certificate_profile c ekus tst now = PFail b /\ branch_code b = Some k.
+Proof.
+  intros c ekus tst now. destruct (quiet_input c) eqn:Hq.
+  - rewrite (quiet_not_accepted c ekus _ Hq).
+    destruct (quiet_fails c ekus tst now Hq) as [b Hb]. destruct (quiet_branch_logged b) as [k Hk]. eauto.
+  - exact (profile_exact c ekus tst now Hq).
+Qed.
+
+Theorem conforming_accepted_all : forall c ekus tst now,
+  conforming c ekus (eff_time tst now) = true ->
+  check_end_entity_certificate_profile c ekus tst now = POk
+  /\ profile_log (check_end_entity_certificate_profile c ekus tst now) = [].
+Proof. exact conforming_accepted. Qed.
+
+Theorem violation_rejected_all : forall c ekus tst now,
+  known_ku c = false -> conforming c ekus (eff_time tst now) = false ->
+  exists b k, check_end_entity_certificate_profile c ekus tst now = PFail b /\ branch_code b = Some k
+              /\ profile_log (check_end_entity_certificate_profile c ekus tst now) = [k].
+Proof.
+  intros c ekus tst now Hk Hc.
+  pose proof (profile_exact_all c ekus tst now) as E.
+  destruct (accepts c ekus (eff_time tst now)) eqn:Ha.
+  - rewrite (accepts_conforming _ _ _ Ha (known_selfsigned_empty c) Hk) in Hc. discriminate.
+  - destruct E as [b [k [E1 E2]]]. exists b, k. repeat split; try assumption.
+    rewrite E1. cbv beta iota delta [profile_log]. now rewrite E2.
+Qed.
+
+Theorem profile_iff_conforming_all : forall c ekus tst now,
+  known_ku c = false ->
+  (check_end_entity_certificate_profile c ekus tst now = POk <-> conforming c ekus (eff_time tst now) = true).
+Proof.
+  intros c ekus tst now Hk. split.
+  - intros HO. destruct (conforming c ekus (eff_time tst now)) eqn:Hc; [reflexivity|].
+    destruct (violation_rejected_all c ekus tst now Hk Hc) as [b [k [E _]]]. congruence.
+  - intros Hc. now apply conforming_accepted.
+Qed.
+
+Theorem each_violation_rejected_all : forall c ekus tst now,
+  known_ku c = false ->
+  rule_version c \/ rule_ca c \/ rule_self_signed c \/ rule_sig_alg c \/ rule_key c \/ rule_unique_ids c
+  \/ rule_key_usage c \/ rule_eku ekus c \/ rule_critical c \/ rule_validity c (eff_time tst now) ->
+  exists b k, check_end_entity_certificate_profile c ekus tst now = PFail b /\ branch_code b = Some k
+              /\ profile_log (check_end_entity_certificate_profile c ekus tst now) = [k].
+Proof.
+  intros c ekus tst now Hk H. apply violation_rejected_all; [assumption|]. now apply rule_breaks_conforming.
+Qed.
+
+(* rules that need no hypothesis at all: everything except the key-usage rule (F-KU-CERTSIGN stays open) *)
+Theorem non_ku_violation_rejected : forall c ekus tst now,
+  rule_version c \/ rule_ca c \/ rule_self_signed c \/ rule_sig_alg c \/ rule_key c \/ rule_unique_ids c
+  \/ rule_eku ekus c \/ rule_critical c \/ rule_validity c (eff_time tst now) ->
+  exists b k, check_end_entity_certificate_profile c ekus tst now = PFail b /\ branch_code b = Some k.
+Proof.
+  intros c ekus tst now H.
+  pose proof (profile_exact_all c ekus tst now) as E.
+  assert (Ha : accepts c ekus (eff_time tst now) = false); [|now rewrite Ha in E].
+  unfold accepts, self_signed_rule. rewrite selfsigned_fixed.
+  unfold rule_version, rule_ca, rule_self_signed, rule_sig_alg, rule_key, rule_unique_ids, rule_eku, rule_critical, rule_validity in H.
+  destruct H as [H|[H|[H|[H|[H|[H|[H|[H|H]]]]]]]].
+  - apply N.eqb_neq in H. rewrite H. now rewrite andb_false_r.
+  - rewrite H. cbn [negb]. now rewrite !andb_false_r.
+  - rewrite H. cbn [negb andb]. now rewrite !andb_false_r.
+  - rewrite H. now rewrite !andb_false_r.
+  - rewrite H. now rewrite !andb_false_r.
+  - assert (E2 : c_issuer_uid c || c_subject_uid c = true) by (destruct H as [-> | ->]; [reflexivity|apply orb_true_r]).
+    rewrite E2. cbn [negb]. now rewrite !andb_false_r.
+  - rewrite H. now rewrite !andb_false_r.
+  - unfold no_unhandled_critical in H. unfold no_unhandled_critical. rewrite H. now rewrite !andb_false_r.
+  - rewrite H. now rewrite !andb_false_r.
+Qed.
+
+(* the EKU rule without the quiet-input hypothesis *)
+Theorem eku_rejected_all : forall c ekus tst now,
+  eku_accepted ekus c = false ->
+  exists b k, check_end_entity_certificate_profile c ekus tst now = PFail b /\ branch_code b = Some k.
+Proof.
+  intros c ekus tst now He. apply non_ku_violation_rejected. do 6 right. left. exact He.
+Qed.
+
+(* the former witnesses of F-SELFSIGNED and F-PSS-DEFAULTS are now rejected with signingCredential.invalid *)
+Lemma former_witnesses_rejected :
+  check_end_entity_certificate_profile self_signed_ee DEFAULT_EKUS None T2026 = PFail BSelfSigned
+  /\ profile_log (check_end_entity_certificate_profile self_signed_ee DEFAULT_EKUS None T2026) = [CInvalid]
+  /\ check_end_entity_certificate_profile pss_defaults_ca DEFAULT_EKUS None T2026 = PFail BPssUnparsable
+  /\ profile_log (check_end_entity_certificate_profile pss_defaults_ca DEFAULT_EKUS None T2026) = [CInvalid].
 Proof. vm_compute. repeat split; reflexivity. Qed.
